@@ -40,6 +40,15 @@ EXTRA_ASSIGNMENTS = [
                  'z9011 [2] IMPLICIT BOOLEAN }'],
     ['Tail9012', 'Tail9012 ::= SET { p9013 [APPLICATION 16384] IMPLICIT '
                  'UTF8String OPTIONAL, q9014 [3] IMPLICIT NULL }'],
+    # Lists with an extensible SIZE constraint written on the member, last
+    # in the message (fewer elements than the root allows are legal).
+    ['Trail9015', 'Trail9015 ::= SEQUENCE { id9016 [0] IMPLICIT INTEGER, '
+                  'samples9017 [1] IMPLICIT SEQUENCE (SIZE(1..4, ...)) OF '
+                  'INTEGER }'],
+    ['Trail9018', 'Trail9018 ::= SEQUENCE { tag9019 [0] IMPLICIT BOOLEAN, '
+                  'set9020 [1] IMPLICIT SET (SIZE(2, ...)) OF BOOLEAN, '
+                  'more9021 [2] IMPLICIT SEQUENCE (SIZE(3..5, ...)) OF '
+                  'OCTET STRING OPTIONAL }'],
 ]
 
 
@@ -150,12 +159,15 @@ class C15(Engine):
                 'seed': run_seed}
 
     def check_rejected_alone(self, spec, type_name, message, jvalue, alone,
-                             case, result):
+                             case, result, inner=()):
         rng = random.Random(mix(case.get('seed', 0), 'tails-rejected',
                                 message.hex()[:64]))
         tails = [b'\x00', b'\x00\x00', b'\xff' * 3, message, message[:1],
                  bytes(rng.randrange(256)
                        for _ in range(rng.choice([1, 2, 5, 30])))]
+        # ... and elements as they occur inside messages of this stream.
+        tails += rng.sample(list(inner), min(6, len(inner)))
+        tails += [bytes.fromhex(t) for t in case.get('extra_tails', [])]
 
         for tail in tails:
             data = message + tail
@@ -175,7 +187,8 @@ class C15(Engine):
                      'decode_with_length': canon_outcome(outcome)[:200],
                      'note': 'decoding the message alone raises, decoding '
                              'it followed by other bytes returns a value'},
-                    dict(case, messages=[[type_name, jvalue]]))
+                    dict(case, messages=[[type_name, jvalue]],
+                         extra_tails=[tail.hex()]))
 
                 return
 
@@ -193,6 +206,8 @@ class C15(Engine):
 
         spec = outcome[1]
         sent = []   # (type_name, bytes, canon(decoded alone), jvalue)
+        inner = []  # elements found inside the messages of this run
+        rejected = []
         parsed_fresh = world.parse(text)
         parsed_fresh = parsed_fresh[1] if parsed_fresh[0] == 'ok' else None
 
@@ -207,6 +222,13 @@ class C15(Engine):
                 continue
 
             encoded = outcome[1]
+
+            if len(inner) < 200:
+                inner.extend(bytes(encoded[node['off']:node['end']])
+                             for node in wire.tlv_nodes(encoded, limit=40)
+                             if node['depth'] >= 1
+                             and node['end'] - node['off'] <= 48)
+
             outcome, ticks = steps.call(
                 lambda: spec.decode(type_name, encoded),
                 world.decode_budget(len(encoded)))
@@ -214,12 +236,7 @@ class C15(Engine):
 
             if outcome[0] != 'ok':
                 result.stats['skipped-roundtrip'] += 1
-                # The decoder rejects the encoder's own output (a C01
-                # matter) - but then it must reject it whatever follows:
-                # an answer that depends on the trailing bytes is a framing
-                # disagreement.
-                self.check_rejected_alone(spec, type_name, encoded, jvalue,
-                                          outcome, case, result)
+                rejected.append((type_name, encoded, jvalue, outcome))
                 continue
 
             sent.append((type_name, encoded, canon(outcome[1]), jvalue))
@@ -271,6 +288,15 @@ class C15(Engine):
                                      jvalue))
                         result.stats['messages-with-unknown-additions'] += 1
 
+        # The decoder rejects the encoder's own output (a C01 matter) - but
+        # then it must reject it whatever follows: an answer that depends on
+        # the trailing bytes is a framing disagreement.
+        inner = sorted(set(inner))
+
+        for type_name, encoded, jvalue, outcome in rejected[:8]:
+            self.check_rejected_alone(spec, type_name, encoded, jvalue,
+                                      outcome, case, result, inner)
+
         if not sent:
             return result
 
@@ -278,8 +304,13 @@ class C15(Engine):
             """keep: indices into `sent` needed to reproduce."""
 
             messages = [[sent[i][0], sent[i][3]] for i in keep]
-            result.violation(cls, {'codec': codec}, detail,
-                             dict(case, messages=messages))
+            small = dict(case, messages=messages)
+
+            if detail.get('tail'):
+                # (The tail may come from another message of the stream.)
+                small['extra_tails'] = [detail['tail']]
+
+            result.violation(cls, {'codec': codec}, detail, small)
 
         # -- direct probes: every prefix of the header (+2), and tails -------
         rng = random.Random(mix(case.get('seed', 0), 'tails'))
@@ -321,6 +352,10 @@ class C15(Engine):
                      bytes(rng.randrange(256)
                            for _ in range(rng.choice([1, 2, 5, 30]))),
                      b'\xff' * 3, message]
+            # ... and elements as they occur inside messages of this
+            # stream (what a decoder reading past the end would accept).
+            tails += rng.sample(inner, min(3, len(inner)))
+            tails += [bytes.fromhex(t) for t in case.get('extra_tails', [])]
 
             for tail in tails:
                 data = message + tail
@@ -350,7 +385,7 @@ class C15(Engine):
                 self.check_with_length(outcome, total, expected, violation,
                                        {'type': type_name,
                                         'message': message.hex()[:120],
-                                        'tail': tail.hex()[:60]},
+                                        'tail': tail.hex()[:200]},
                                        [index, (index + 1) % len(sent)])
 
         # -- the stream -------------------------------------------------------
